@@ -26,6 +26,14 @@ func (o *Operations) Delete(name string) error {
 		return err
 	}
 
+	// Release the drive again if we return before the writer has been closed
+	writerClosed := false
+	defer func() {
+		if !writerClosed {
+			_ = o.backend.CloseWriter()
+		}
+	}()
+
 	dirty := false
 	tw, cleanup, err := tarext.NewTapeWriter(writer.Drive, writer.DriveIsRegular, o.pipes.RecordSize)
 	if err != nil {
@@ -107,12 +115,15 @@ func (o *Operations) Delete(name string) error {
 		return err
 	}
 
+	writerClosed = true
 	if err := o.backend.CloseWriter(); err != nil {
 		return err
 	}
 
 	reader, err := o.backend.GetReader()
 	if err != nil {
+		_ = o.backend.CloseReader() // A failed GetReader leaves the drive locked
+
 		return err
 	}
 	defer o.backend.CloseReader()
